@@ -1,7 +1,7 @@
 (* Props/C20.v — the property theorems for C20 (operations do not modify their inputs).
    Only statements, `exact <lemma>` and Print Assumptions live here. *)
 From Coq Require Import ZArith List Bool Arith.
-From BNP Require Import Base.Prims Model.C20 Proofs.C20 Gen.C20 Corr.C20 Proofs.C20_link Bridge.C20.
+From BNP Require Import Base.Prims Model.C20 Proofs.C20 Gen.C20 Corr.C20 Proofs.C20_link Proofs.C20_chain Bridge.C20.
 Import ListNotations.
 Open Scope nat_scope.
 
@@ -97,6 +97,42 @@ Theorem C20_model_fixed_unchanged : forall bufs target cow sid,
 Proof. exact model_call_fixed_unchanged. Qed.
 Print Assumptions C20_model_fixed_unchanged.
 
+(* ---- round 6 ---- *)
+(* chains of calls ("hidden state": the argument of a call is what earlier calls left behind).  For every number of
+   arguments, every list of programs each accepted by the checker, every store: running them one after the other on the
+   same argument objects — the callee's locals dropped at each return, the argument objects kept exactly as the callee
+   left them (a view-shaped argument may have rebound itself to a private copy) — leaves every buffer that existed before
+   the FIRST call and the logical content of every argument unchanged; the state is again a well-formed call state. *)
+Theorem C20_safe_call_chain : forall np ps s,
+  wf_init np s -> forallb (safe_prog np) ps = true ->
+  unchanged np s (run_calls np ps s) /\ wf_init np (run_calls np ps s)
+  /\ length (s_blocks s) <= length (s_blocks (run_calls np ps s)).
+Proof. exact safe_calls_chain. Qed.
+Print Assumptions C20_safe_call_chain.
+
+(* the property's "applying the same function twice", for any number of repetitions *)
+Theorem C20_safe_call_repeated : forall np p k s,
+  wf_init np s -> safe_prog np p = true -> unchanged np s (run_calls np (repeat p k) s).
+Proof. exact safe_call_repeated. Qed.
+Print Assumptions C20_safe_call_repeated.
+
+(* the sites registered in round 6 for in-place writes OUTSIDE the anchored files (bedgraph.get_pileup, the SAM / CSV /
+   matrix / multi-line FASTA / one-line writers, the named-field extractor, PWM.calculate_scores, get_ragged_changes,
+   interleave, column_index_array, apply_variants_to_sequence, IntegerEncoding._encode, stream helpers ...): each has a
+   program regenerated from the CURRENT source on this run, and every run-time instance of it leaves its inputs unchanged *)
+Theorem C20_round6_sites_tie : forall sid,
+  In sid round6_site_ids ->
+  exists np site, In (sid, (np, site)) gen_site_table /\ forall p s, shape p = shape site -> wf_init np s -> unchanged np s (run p s).
+Proof. exact round6_sites_sound. Qed.
+Print Assumptions C20_round6_sites_tie.
+
+(* chains of instances of the registered sites of the current source *)
+Theorem C20_source_tie_chain : forall np ps s,
+  (forall p, In p ps -> exists sid site, In (sid, (np, site)) gen_site_table /\ shape p = shape site) ->
+  wf_init np s -> unchanged np s (run_calls np ps s).
+Proof. exact gen_sites_chain_sound. Qed.
+Print Assumptions C20_source_tie_chain.
+
 (* non-vacuity *)
 (* 1. the checker accepts and rejects: str_to_int as it is (copy before zeroing the sign) is accepted; the same
       function without the copy (what the extractor produces for that mutation) is rejected *)
@@ -138,3 +174,28 @@ Example C20_nonvacuous_link :
               k_w_ref := []; k_w_got := []; k_np := 0%Z; k_prog := []; k_prog2 := []; k_flags := [] |} in
   model_ok c = true /\ spec_ok c = true.
 Proof. vm_compute. split; reflexivity. Qed.
+
+(* 5. round 6 — chains.  (a) two accepted calls on a view-shaped argument: the first flattens the argument into a
+      private copy and overwrites the copy's view-of-a-copy, the second sees the rebound argument; hypotheses of
+      C20_safe_call_chain hold and the store grew (so the chain is not the identity).  (b) the chain semantics is not
+      trivially "unchanged": a rejected second call that writes through the argument changes it. *)
+Example C20_nonvacuous_chain :
+  let s := {| s_blocks := [[45; 49; 53]%Z]; s_regs := [{| r_blocks := [0]; r_cow := true |}] |} in
+  let p1 := [IFlatten 0; IView true true [0]; IWrite 1 0 [48; 49; 53]%Z] in
+  let p2 := [IAlloc [7%Z]; IWrite 1 0 [8%Z]] in
+  forallb (safe_prog 1) [p1; p2] = true
+  /\ unchanged_b 1 s (run_calls 1 [p1; p2] s) = true
+  /\ length (s_blocks (run_calls 1 [p1; p2] s)) = 4
+  /\ r_blocks (get_reg (run_calls 1 [p1; p2] s) 0) = [1]
+  /\ safe_prog 1 [IWrite 0 0 [48; 49; 53]%Z] = false
+  /\ unchanged_b 1 s (run_calls 1 [p1; [IWrite 0 0 [48; 49; 53]%Z]] s) = false.
+Proof. vm_compute. repeat split; reflexivity. Qed.
+
+(* 6. round 6 — the new sites: the list is not empty, PWM.calculate_scores (44) and apply_variants_to_sequence (48) are
+      in it and in the generated table with a program that really writes (so "safe" is not "no write at all") *)
+Example C20_nonvacuous_round6 :
+  length round6_site_ids = 21
+  /\ existsb (Z.eqb 44) round6_site_ids = true /\ existsb (Z.eqb 48) round6_site_ids = true
+  /\ existsb (fun e => Z.eqb (fst e) 48 && existsb (fun i => match i with IWrite _ _ _ => true | _ => false end) (snd (snd e)))
+             gen_site_table = true.
+Proof. vm_compute. repeat split; reflexivity. Qed.
